@@ -280,6 +280,9 @@ def concrete(si, ti, vals):
 
 
 def replay(data):
+    if isinstance(data, dict) and data.get('kind') == 'authoropts':
+        from . import authoropts
+        return authoropts.replay(data)
     common.install_common_stubs()
     from bert_e.workflow.gitwaterflow import jira as J
     common.silence(J)
@@ -394,3 +397,7 @@ def check(rep):
     if not any(r['bad'] is not None for _, r in tw):
         rep.error('reachability twin not refuted')
     lemmas(rep)
+    # the per-author settings as a source of these bypasses (real loader + accessors)
+    from . import authoropts
+    authoropts.check(rep, 'C11', ['bypass_jira_check'])
+
